@@ -15,7 +15,8 @@ TRUSTED = [
     "axioms: none (Print Assumptions: Closed under the global context for every theorem)",
     "goleveldb is environment, restated in coq/KV/Model.v: DB.Get = s_get, DB.Write(batch) = apply_log (atomic, in recording order), "
     "a range iterator = the ascending entries of [lo,hi) of a snapshot taken at creation (range_entries), util.BytesPrefix = db.BytesPrefix; "
-    "durability across Close/Open is goleveldb's and only exercised (reopen steps), not proved",
+    "DB.GetSnapshot = the store committed at that moment (a read transaction carries it: st_rtx); "
+    "durability across Close/Open is goleveldb's and only exercised (close / reopen steps), not proved",
     "Go library semantics restated in Gallina: bytes.Compare/HasPrefix, strings.Split/Join on \"_\", strconv.Itoa, map lookups (KV/Model.v)",
     "extraction: ExtrOcamlBasic only; Z/positive/nat stay inductive; ocamlfind ocamlopt 4.13.1; ocaml/common/conv.ml + ocaml/C11/driver.ml (op parsing, result printing, sorting of listings)",
     "Go harness harness/cmd/c11 (generator, op interpreter, recover() wrapper, 2nd-oracle reference map, canonical sorting of listings) built from /repo with -tags verif",
@@ -29,13 +30,13 @@ def _tmp_env():
     return {"TMPDIR": "/dev/shm"} if os.path.isdir("/dev/shm") and os.access("/dev/shm", os.W_OK) else {}
 
 
-def run_pair(c, exe_go, exe_ml, args, tag):
+def run_pair(c, exe_go, exe_ml, args, tag, model_arg=""):
     """Runs the harness with args, then the model on its output. Returns (impl lines, model lines, stderr) or raises."""
     impl = os.path.join(c.workdir, "impl-%s.txt" % tag)
     rc, o, e = V.sh([exe_go] + args + ["-out", impl], timeout=1500, env_extra=_tmp_env())
     if rc != 0:
         raise RuntimeError("harness cmd/c11 failed to run (%s): %s" % (tag, (o + e)[-1500:]))
-    rc, mo, me = V.sh("%s < %s" % (exe_ml, impl), timeout=1800)
+    rc, mo, me = V.sh("%s %s < %s" % (exe_ml, model_arg, impl), timeout=1800)
     if rc != 0:
         raise RuntimeError("model driver failed (%s): %s" % (tag, me[-1500:]))
     il = V.read_lines(impl)
@@ -217,12 +218,21 @@ def main(tier, replay=None):
         if fi is None:
             frows, fi, fk, ops = rows, i, kind, [r[0] for r in rows[:i + 1]]
         op, impl, ref, model = frows[fi]
+        try:   # diagnostic: does the implementation follow the model of the code as first found (no read snapshot)?
+            il2, ml2, _ = run_pair(c, outs[0], exe, ["-replay", path], "final-nosnap", model_arg="nosnap")
+            if first_failure([(r[0], r[1], "-", r[3]) for r in split_seqs(il2, ml2)[0][1]])[0] is None:
+                c.notes.append("on the failing sequence the implementation agrees line by line with the model of the UNREPAIRED code "
+                               "(step_unrepaired: a read transaction reads whatever is committed at each read, no snapshot)")
+        except RuntimeError:
+            pass
+        nosnap = " [" + c.notes[-1] + "]" if c.notes and "UNREPAIRED" in c.notes[-1] else ""
         if fk == "ref":
             what = ("sequence %s (%d ops): `%s` returned %s, the property (reference map) requires %s; model says %s"
                     % (sid, len(ops), op, impl[:200], ref[4:][:200], model[:200]))
         else:
             what = ("sequence %s (%d ops): `%s` returned %s, the Coq model (KV/Model.v) says %s; the reference map has no objection (%s)"
                     % (sid, len(ops), op, impl[:200], model[:200], ref))
+        what += nosnap
         rep = {"ops": ops, "failing_op": op, "impl": impl, "model": model, "reference": ref,
                "rerun": "/verif/build/bin/c11 -replay <file with these ops, one per line>"}
         if fk == "ref":
